@@ -8,6 +8,10 @@ _BUILTIN = {
     'ZeroDivisionError': ['ArithmeticError', 'Exception'], 'ArithmeticError': ['Exception'], 'OverflowError': ['ArithmeticError', 'Exception'],
     'NotImplementedError': ['RuntimeError', 'Exception'], 'RuntimeError': ['Exception'], 'OSError': ['Exception'], 'IOError': ['OSError', 'Exception'],
     'UnicodeDecodeError': ['ValueError', 'Exception'], 'Exception': [],
+    # configparser (CPython Lib/configparser.py): every parser error derives from configparser.Error
+    'Error': ['Exception'], 'DuplicateOptionError': ['Error', 'Exception'], 'DuplicateSectionError': ['Error', 'Exception'], 'NoSectionError': ['Error', 'Exception'],
+    'NoOptionError': ['Error', 'Exception'], 'ParsingError': ['Error', 'Exception'], 'MissingSectionHeaderError': ['ParsingError', 'Error', 'Exception'],
+    'InterpolationError': ['Error', 'Exception'],
 }
 _cache = {}
 def _scan():
